@@ -402,6 +402,8 @@ class Parser:
                 items.append(self.expr())
             self.eat("op", "]")
             return "(" + ", ".join(items) + ")"
+        if tk == ("id", "unreachable") and self.peek(1) == ("op", "!"):
+            return self.unreachable()
         if tk[0] == "id":
             self.eat()
             name = tk[1]
@@ -805,6 +807,8 @@ class StmtParser(Parser):
             self.check_fresh(env, [name])
             rest = self.sstmts(env.with_(muts=env.muts + [(name, typ)]))
             return "let %s : %s := %s\n%s" % (name, typ, e, rest)
+        if self.at("Some"):
+            return self.let_else(env)
         if self.at("("):
             self.eat()
             names = [self.eat("id")[1]]
@@ -827,6 +831,42 @@ class StmtParser(Parser):
         self.eat("op", ";")
         self.check_fresh(env, names)
         return "let %s := %s\n%s" % (pat, e, self.sstmts(env))
+
+    def let_else(self, env):
+        """`let Some(x) = it.next() else { … return …; };` and `let Some(x) = it.find(|v| pred) else { … };` on a live mutable
+        variable `it` that holds a list-backed iterator: `next` takes the head, `find` drops the longest prefix on which the
+        predicate fails and takes the head of what is left; the iterator continues behind the element taken"""
+        self.eat("id", "Some"); self.eat("op", "(")
+        x = self.eat("id")[1]
+        self.eat("op", ")"); self.eat("op", "=")
+        it = self.eat("id")[1]
+        typ = dict(env.muts).get(it)
+        if typ is None or not typ.startswith("List "):
+            raise TranslateError("let-else on %s, which is not a live list iterator" % it)
+        self.eat("op", ".")
+        m = self.eat("id")[1]
+        self.eat("op", "(")
+        if m == "next":
+            scrut = it
+        elif m == "find":
+            self.eat("op", "|")
+            v = self.eat("id")[1]
+            self.eat("op", "|")
+            self.bound.add(v)
+            pred = self.expr()
+            scrut = "(List.dropWhile (fun %s => !(%s)) %s)" % (v, pred, it)
+        else:
+            raise TranslateError("iterator method outside the fragment: .%s" % m)
+        self.eat("op", ")")
+        self.eat("id", "else")
+        diverge = "⟪DIVERGE⟫"
+        other = self.sblock(env.with_(cont=diverge, tail=None))
+        if diverge in other:
+            raise TranslateError("the else block of let-else must not fall through")
+        self.eat("op", ";")
+        self.check_fresh(env, [x])
+        rest = self.sstmts(env)
+        return "(match %s with\n  | [] => %s\n  | %s :: %s => %s)" % (scrut, par(other), x, it, par(rest))
 
     def array_map(self, env, name):
         """`let name = ARR.map(|x| { …; value });` on a fixed array: the closure body is unrolled element by element, in order;
@@ -987,7 +1027,9 @@ class StmtParser(Parser):
             pats = self.patterns()
             self.eat("op", "=>")
             if self.at("unreachable"):
-                body = self.unreachable()
+                # a diverging arm: modelled as `return <value chosen by the job>` (for a unit function: the current state)
+                v = self.unreachable()
+                body = env.retraw(self.unit_value() if self.fn_unit else v)
             elif self.at("{"):
                 body = self.sblock(env)
             else:
